@@ -96,7 +96,7 @@ def step (st : St) (t : List String) : St × String :=
   | ["reset"] => reply {} "ok"
   | "script" :: _name :: _hex :: "##" :: abs =>
     match parseProg abs with
-    | some p => reply { st with s := { st.s with prog := p.map (·.2), progParams := p.map (·.1) } } "ok"
+    | some p => reply { st with s := hostScript st.s (p.map (·.2)) (p.map (·.1)) } "ok"
     | none => (st, "bad-op")
   | "call" :: _name :: label :: args =>
     match labelIdx label, args.mapM parseArg with
@@ -116,6 +116,7 @@ def step (st : St) (t : List String) : St × String :=
     match n.toNat? with
     | some k => reply { st with s := { st.s with clock := st.s.clock + k } } "ok"
     | none => (st, "bad-op")
+  | ["reset-director"] => reply { st with s := hostReset st.s } "ok"
   | ["execute"] => reply { st with s := hostExecute st.s } "ok"
   | ["step", n] =>
     match n.toNat? with
